@@ -86,6 +86,9 @@ func (codecV2) ReadHeadBody(r io.Reader) ([]byte, []byte, error) {
 	}
 	var head = V2Header(buf[:])
 	var length = head.Len()
+	if length < V2HeaderSize {
+		return nil, nil, fmt.Errorf("payload size %d less than header size", length)
+	}
 	if length > V2MaxPayloadBytes {
 		return nil, nil, fmt.Errorf("payload size %d overflow", length)
 	}
